@@ -16,7 +16,7 @@ func init() {
 		ID:    "C18",
 		Title: "Analysis is total, deterministic and offset-correct on any bytes",
 		Rules: []string{"C18.R1", "C18.R2", "C18.R3", "C18.R4", "C18.R5", "C18.R6", "C01.R4"},
-		Decides: "four structural necessary conditions, over every analysis component of the module: (R1) no token term and no returned token stream is built in a buffer owned by the component or by the package (a second Analyze call would rewrite the tokens of the first: not the same tokens every time, and terms indexed for one field change while the next field is analysed); (R2) every value stored into Token.PositionIncr is non-negative by construction (a constant >= 0, another token's increment, or sums of such); (R3) in the tokenizers a token whose term is the input re-sliced [s:e] carries exactly Start = s and End = e, and a token whose term comes from a segmenter carries End = Start + len(term); (R5) every x[len(x)-k] and x[..:len(x)-k] in the analysis packages is covered by a lower bound on len(x) carried through the preceding guards and shortenings (also through a local n that is kept equal to len(x)); (R4) the code reachable from the components contains no go statement, select, clock or random source, and iterates a map only where listed with a reason; (C01.R4) a field value that may be stored is analysed as a copy. ",
+		Decides: "structural necessary conditions, over every analysis component of the module: (R1) no token term and no returned token stream is built in a buffer owned by the component or by the package (a second Analyze call would rewrite the tokens of the first: not the same tokens every time, and terms indexed for one field change while the next field is analysed); (R2) every value stored into Token.PositionIncr is non-negative by construction (a constant >= 0, another token's increment, or sums of such); (R3) in the tokenizers a token whose term is the input re-sliced [s:e] carries exactly Start = s and End = e, and a token whose term comes from a segmenter carries End = Start + len(term); (R5) every x[len(x)-k] and x[..:len(x)-k] in the analysis packages is covered by a lower bound on len(x) carried through the preceding guards and shortenings (also through a local n that is kept equal to len(x)); (R4) the code reachable from the components contains no go statement, select, clock or random source, and iterates a map only where listed with a reason; (C01.R4) a field value that may be stored is analysed as a copy; (R6) no Tokenize / Filter / Analyze method of a component (nor a method of the same receiver it calls) writes a field, element or map entry of the component or of an object it owns, nor hands such an object to code outside the module that is not in the frozen table of read-only callees - one analyzer value serves all analysis workers and concurrent queries. ",
 		NotCovered: "TOTALITY beyond R5 (indexes that are not taken from the end: loop indexes i+1, constant positions in rows returned by a library such as regexp.FindAllIndex or in fixed decomposition tables, third-party segmenters) and the numeric range of offsets produced by filters (shingles, n-grams, compound words) are NOT decided: they need facts about library results or a relational value-range analysis that is out of reach here; index-time/query-time agreement is decided only as far as R1 and R4 imply it.",
 	})
 	registerRule(&RuleInfo{ID: "C18.R1", Title: "tokens are not built in buffers owned by the component or the package", Floor: 50, Run: ruleC18R1,
